@@ -32,6 +32,9 @@ def run(ctx):
                       "and the change subscription (so nothing read from the configuration can go stale across rounds)")
     ctx.rule("R13.8", "keyboard source: (enabled, not watching) -> spawn the stdin watcher and keep its close handle; (disabled, watching) -> take the handle "
                       "and send the close signal; otherwise nothing")
+    ctx.rule("R13.9", "round transfer function of the fs worker, over all syntactic paths of one loop iteration: await-first; empty => release; "
+                      "create => record kind + watcher + cleared shadow set; keep => evidence that the watcher exists and has the configured kind; "
+                      "diff = (C \\ S, S \\ C) with the shortcut only under S = {}")
     ctx.rule("R13.4", "an empty configured path set releases the watcher; WatchedPath.recursive selects RecursiveMode::Recursive / NonRecursive")
     ctx.rule("R13.5", "lock scope: in the watchexec crate no RwLock/Mutex guard is live across an await or a call through a user-supplied Fn")
     ctx.rule("R13.6", "every public Config setter replaces the value and then calls signal_change")
@@ -234,6 +237,8 @@ def run(ctx):
                                     "a successful %s updates the shadow set" % op.split("::")[-1], w.loc(m["l"]),
                                     fail="a successful %s is not recorded in the shadow set: the path will be (un)registered again or never dropped" % op)
                 ctx.require(n_ok >= 1 and n_err >= 1, "R13.3", "%s:both-outcomes" % which, "both outcomes of %s are handled" % op, w.loc(m["l"]))
+        from .. import fsround
+        fsround.check(ctx, w, interesting)
         # ---- R13.4
         takes = [bi for bi, t in w.calls() if t.callee.is_("core::option::Option::take")]
         emp = [(bi, t) for bi, t in w.calls() if t.callee.is_("alloc::vec::Vec::is_empty") and not w.macro(t.mac)]
@@ -248,10 +253,12 @@ def run(ctx):
                         tb in cfg.reachable_from(false_t[0], avoid=[bi]) for tb in takes) if false_t else False
         ctx.require(ok, "R13.4", "empty-releases-watcher", "an empty configured path set drops the watcher (watcher.take())", w.loc(w.line),
                     fail="an empty configured path set no longer releases the watcher")
-        rec = [n for n in thir.find(root, "if") if pathx.desc(n["c"]).endswith("path.recursive")]
+        rec = [n for n in thir.find(root, "if") if pathx.split_not(pathx.desc(n["c"]))[0] == "path.recursive"]
         ok = False
         if len(rec) == 1:
             tv, evv = thir.expr_value(rec[0]["t"]), thir.expr_value(rec[0]["e"])
+            if pathx.split_not(pathx.desc(rec[0]["c"]))[1]:
+                tv, evv = evv, tv
             ok = tv[0] == "v" and tv[2] == "Recursive" and evv[0] == "v" and evv[2] == "NonRecursive"
         ctx.require(ok, "R13.4", "recursive-mode", "path.recursive selects Recursive, otherwise NonRecursive", w.loc(w.line),
                     fail="the recursion flag of a watched path is no longer mapped to RecursiveMode::Recursive / NonRecursive")
